@@ -130,27 +130,34 @@ func silentAfterReconnect(res *fw.Result, seed int64, base int) error {
 	defer scen.WithTimeout(3*time.Second, closer)
 	sig := "peer silent right after a reconnect"
 	c := map[string]interface{}{"scenario": "silent-after-reconnect", "ping": P.String(), "timeout": T.String()}
-	if v, err := cl.Count(ctx, base+1); err != nil || v != base+1 {
+	if err := scen.WarmUp(func() error {
+		v, err := cl.Count(ctx, base+1)
+		if err == nil && v != base+1 {
+			err = fmt.Errorf("answered %d", v)
+		}
+		return err
+	}); err != nil {
 		return fmt.Errorf("warm-up call failed: %v", err)
 	}
+	n0 := e.PX.Accepted() // 1 unless the warm-up had to be repeated on a new connection
 	e.PX.Cut(0, "rst")
 	// the second connection: let the upgrade through, then swallow everything without closing
 	deadline := time.Now().Add(3 * time.Second)
-	for time.Now().Before(deadline) && e.PX.Accepted() < 2 {
+	for time.Now().Before(deadline) && e.PX.Accepted() < n0+1 {
 		time.Sleep(200 * time.Microsecond)
 	}
-	if e.PX.Accepted() < 2 {
+	if e.PX.Accepted() < n0+1 {
 		res.Add(fw.Finding{Kind: "monitor", Signature: sig + " no redial", Detail: "the client did not redial after the reset", Case: c})
 		return nil
 	}
 	time.Sleep(2 * time.Millisecond)
-	e.PX.Cut(2, "blackhole")
+	e.PX.Cut(n0+1, "blackhole")
 	t0 := time.Now()
 	bound := 4*T + 200*time.Millisecond
-	for time.Since(t0) < bound+time.Second && e.PX.Accepted() < 3 {
+	for time.Since(t0) < bound+time.Second && e.PX.Accepted() < n0+2 {
 		time.Sleep(time.Millisecond)
 	}
-	if e.PX.Accepted() < 3 {
+	if e.PX.Accepted() < n0+2 {
 		res.Add(fw.Finding{Kind: "monitor", Signature: sig + " no reconnect", Detail: fmt.Sprintf("the client did not start reconnecting within %v of the peer falling silent on the freshly re-established connection", bound+time.Second), Case: c})
 	} else {
 		ok := false
@@ -281,7 +288,13 @@ func silent(d *fw.Driver, res *fw.Result, seed int64, p pt, when string, base in
 	}
 	sig := fmt.Sprintf("silent-peer ping=%v timeout=%v when=%s", p.P, p.T, when)
 	if when != "from-start" {
-		if v, err := cl.Count(ctx, base+1); err != nil || v != base+1 {
+		if err := scen.WarmUp(func() error {
+			v, err := cl.Count(ctx, base+1)
+			if err == nil && v != base+1 {
+				err = fmt.Errorf("answered %d", v)
+			}
+			return err
+		}); err != nil {
 			return fmt.Errorf("warm-up call failed: %v", err)
 		}
 	}
@@ -294,6 +307,10 @@ func silent(d *fw.Driver, res *fw.Result, seed int64, p pt, when string, base in
 	}
 	t0 := time.Now()
 	e.RT.Log("harness.cut")
+	n0 := e.PX.Accepted() // 1 unless the warm-up had to be repeated on a new connection
+	if n0 < 1 {
+		n0 = 1
+	}
 	e.PX.Cut(0, "blackhole")
 	bound := 4*p.T + 100*time.Millisecond
 	if when == "busy" || when == "from-start" {
@@ -334,10 +351,10 @@ func silent(d *fw.Driver, res *fw.Result, seed int64, p pt, when string, base in
 	}
 	// reconnection starts: a second connection is accepted within the bound
 	deadline := time.Now().Add(bound + time.Second)
-	for time.Now().Before(deadline) && e.PX.Accepted() < 2 {
+	for time.Now().Before(deadline) && e.PX.Accepted() < n0+1 {
 		time.Sleep(time.Millisecond)
 	}
-	if e.PX.Accepted() < 2 {
+	if e.PX.Accepted() < n0+1 {
 		res.Add(fw.Finding{Kind: "monitor", Signature: sig + " no reconnect", Detail: fmt.Sprintf("the client did not start reconnecting within %v of the peer falling silent", bound+time.Second)})
 	} else if el := time.Since(t0); el > bound+50*time.Millisecond {
 		res.Add(fw.Finding{Kind: "monitor", Signature: sig + " slow reconnect", Detail: fmt.Sprintf("the client re-dialled %v after the peer fell silent (bound %v)", el, bound)})
